@@ -30,8 +30,9 @@ type Hist struct {
 	aws              *AwsSim
 	podL             *podListerSim
 	nodeL            *nodeListerSim
-	nextRefreshFault bool // set by an event: the refresh of the next scan fails
-	scripted         bool // a corpus scenario: no random extras beyond what the script says
+	nextRefreshFault bool          // set by an event: the refresh of the next scan fails
+	scanInterval     time.Duration // controller option: period of RunForever\'s ticker
+	scripted         bool          // a corpus scenario: no random extras beyond what the script says
 	mock             clock.Mock
 	api              []*WNode // API truth, in creation order
 	listed           []*WNode // what the node lister returns (may be stale), in lister order
@@ -161,6 +162,7 @@ func (h *Hist) initController() bool {
 			NodeGroups:           h.cfgs,
 			CloudProviderBuilder: simBuilder{h},
 			DryMode:              h.globalDry,
+			ScanInterval:         h.scanInterval, // used by RunForever's ticker only; a scan itself must not care
 		}
 		if h.realCtor {
 			ctl, err = controller.VerifNewControllerReal(opts, h.podL, h.nodeL)
